@@ -212,6 +212,8 @@ class ProductErrorNode(ErrorNode):
                 # (a node which lacks fields or has unexpected ones is printed itself, to say what was expected there)
                 break
             children: t.Dict[t.Union[str, int], ErrorNode] = {f"{_show(field)}.{_show(k)}": v for (k, v) in child.children.items()}
+            if len(children) != len(child.children):
+                break  # (keys which print alike, like 1 and '1': keep the level rather than lose an entry)
             self = ProductErrorNode(self.expected, children, self.actual)
 
         print(f"{'' if inside_sum else 'Expected '}{self.expected}", file=file)
